@@ -26,7 +26,7 @@ pub fn get() -> FunctionDefinitions {
                                 }
                             }
                         }
-                        Some(sum.into())
+                        JsonValue::from_finite(sum)
                     }
                     _ => None,
                 }
